@@ -288,6 +288,7 @@ def run_shard(sh):
             bad('send-wrote-elsewhere', [], 'a send wrote to a connection other than the current one', rep)
     res['violations'] = list(V.values())
     res['distinct'] += ['send|%d|%d' % (sh['seed'], i) for i in range(sh['n'])]
+    res['evaluations'] = max(res['evaluations'], len(res['distinct']))
     res['samples'] = [dict(rule='/v1/peer/<peer_ip>/send/update', method='POST', cred='wrong-password', state='ESTABLISHED')]
     return res
 
